@@ -568,7 +568,7 @@ fn main() {
     rep.assume("a source's watermark is max(observed timestamp) - its out-of-order bound, kept monotone; an event type that no .watermark declares is a source with bound 0 from its first processed event (what observe_event documents)");
     rep.assume("the engine shows an event to the tracker only if it was not dropped, so the reference observes exactly the events that reached at least one consumer");
     rep.assume("only the 'only if' direction of the statement is judged: a late event that is kept is never a violation");
-    rep.assume("lateness of a consumer without .allowed_lateness is 0; with no .allowed_lateness anywhere in the program nothing may be dropped... unless it is behind the watermark (then lateness 0 applies)");
+    rep.assume("the allowed lateness of a consumer without .allowed_lateness is 0, so an event behind the effective watermark may be dropped when none of its consumers declares a lateness that covers it");
 
     if let Some(path) = args.replay.clone() {
         let doc: J = serde_json::from_str(&std::fs::read_to_string(&path).expect("replay file")).expect("json");
@@ -600,8 +600,8 @@ fn main() {
     }
 
     let threads = ncpu();
-    let tracker_per_thread = args.pick(6000usize, 300_000usize) / threads + 1;
-    let engine_per_thread = args.pick(2400usize, 120_000usize) / threads + 1;
+    let tracker_per_thread = args.pick(6000usize, 160_000usize) / threads + 1;
+    let engine_per_thread = args.pick(2400usize, 50_000usize) / threads + 1;
     let parts = parallel(threads, args.seed ^ 0xC24, move |_ti, mut rng| {
         let mut out = Partial::default();
         let rt = rt();
